@@ -14,7 +14,7 @@ _whole.install(globals(), "C08",
                     "map and occupancy. Tie: machine replay recomputes LevelLimit on the recorded candidates of every round and must reproduce the demes the real run created; census monitor.",
                note="User-written filters placed after LevelLimit are assumed to only remove candidates (true of all shipped filters: C10).",
                technique="Coq invariant + pure filter theorem (count after the cut) + vm_compute trace replay against the real package",
-               front_ends=["driver", "levellimit"], quick=240, thorough=6000, nontrivial=nontrivial, extra_checks=[_whole.make_sessions("C08", {"height": 2, "levels_patch": [{"lsc": {"kind": "DontStop"}}, {"lsc": {"kind": "MetaepochLimit", "n": 2}}], "gsc": {"kind": "MetaepochLimit", "n": 9}})],
+               front_ends=["driver", "levellimit", "order"], quick=240, thorough=6000, nontrivial=nontrivial, extra_checks=[_whole.make_sessions("C08", {"height": 2, "levels_patch": [{"lsc": {"kind": "DontStop"}}, {"lsc": {"kind": "MetaepochLimit", "n": 2}}], "gsc": {"kind": "MetaepochLimit", "n": 9}})],
                forces=[(2, None), (2, {"height": 3}), (1, {"objective_kind": "plateau"}),
                        (1, {"height": 2, "engines": ["SEA", "CMA"], "sprout": {"kind": "custom", "generator": "best", "gen_dist": 1.0, "trunc": 1.0, "deme_filters": [{"kind": "Mahalanobis", "p": 0.5}], "tree_filters": [{"kind": "LevelLimit", "n": 2}], "level_limit": 2},
                             "levels_patch": [{"lsc": {"kind": "DontStop"}}, {"lsc": {"kind": "MetaepochLimit", "n": 3}}], "gsc": {"kind": "MetaepochLimit", "n": 8}})])
